@@ -44,6 +44,15 @@ def critical_mapping(ctx, rep, rule):
                 w = st.facts.get(T.mk(('cmp', 'is', RUNRES, T.FALSE)))
                 if w is not None:
                     v = not w
+            if v is None:
+                # `pure is not False` / `pure is not True` (the inherited run returns one of the two literals)
+                w = st.facts.get(T.mk(('cmp', 'is not', RUNRES, T.FALSE)))
+                if w is not None:
+                    v = w
+            if v is None:
+                w = st.facts.get(T.mk(('cmp', 'is not', RUNRES, T.TRUE)))
+                if w is not None:
+                    v = not w
             return v
 
         def is_crit(st):
@@ -57,7 +66,8 @@ def critical_mapping(ctx, rep, rule):
             """can this path coexist with `the inherited verdict is ok` / `self is critical`?"""
             y = st
             if ok is not None:
-                for t, v in ((is_true, ok), (RUNRES, ok), (is_false, not ok)):
+                for t, v in ((is_true, ok), (RUNRES, ok), (is_false, not ok),
+                             (T.mk(('cmp', 'is not', RUNRES, T.FALSE)), ok), (T.mk(('cmp', 'is not', RUNRES, T.TRUE)), not ok)):
                     y = y.assume(t, v)
                     if y is None:
                         return False
@@ -173,6 +183,12 @@ def mro_table(ctx, rep, rule):
             if m in SCHED_SIDE or m in JOB_SIDE or m == 'co_run' or m.startswith('__'):
                 continue
             s = p.supplier(cls, m)
+            sa, sb = p.supplier(r.sched, m), p.supplier(r.jobbase, m)
+            if sa is sb:
+                continue            # one definition, in an ancestor the two sides share (a mixin): nothing to resolve
+            if sa is not None and sb is not None and (
+                    (sb.cls in r.sched.mro and s is sa) or (sa.cls in r.jobbase.mro and s is sb)):
+                continue            # one side overrides the definition of the shared ancestor, the other inherits it
             rep.check(s.cls is cls or cls in s.cls.mro or s.cls in cls.mro[:1], rule,
                       "%s.%s (defined on both sides) is overridden" % (cls.name, m), site,
                       "%s.%s is defined by both base classes and resolves silently to %s" % (cls.name, m, s.qualname),
@@ -193,3 +209,47 @@ def mro_table(ctx, rep, rule):
                           "%s.__init__ runs the %s constructor" % (cls.name, name), init.qualname,
                           "%s.__init__ does not call %s.__init__" % (cls.name, side.name),
                           "a nested scheduler lacks the %s-side state" % name)
+
+
+def reraise_is_immediate(ctx, rep, rule):
+    """in the nested form, once the exception of a critical member has been read it is raised at once: a call made in
+    between (annotating it, formatting a message from the job) may raise something else, which then travels instead
+    of the job's own exception"""
+    r = ctx.roles
+    n = 0
+    for cls in r.nestable:
+        f = ctx.prog.supplier(cls, 'co_run')
+        if f is None or f is r.RUN:
+            continue
+        fn = f.qualname
+        for rs in walk_local(f.node):
+            if not (isinstance(rs, ast.Raise) and isinstance(rs.exc, ast.Name)):
+                continue
+            name = rs.exc.id
+            binds = [a for a in walk_local(f.node) if isinstance(a, ast.Assign) and len(a.targets) == 1
+                     and isinstance(a.targets[0], ast.Name) and a.targets[0].id == name
+                     and isinstance(a.value, ast.Call) and isinstance(a.value.func, ast.Attribute)
+                     and a.value.func.attr in ('raised_exception', 'exception')]
+            if not binds:
+                continue
+            n += 1
+            lo = max(b.lineno for b in binds if b.lineno < rs.lineno) if any(b.lineno < rs.lineno for b in binds) else None
+            if lo is None:
+                continue
+            # what may replace the exception on its way: a method called on it, or a call it is handed to (a message
+            # printed about it - `print`, `str.format` on a literal - is neither)
+            def touches(c):
+                if isinstance(c.func, ast.Name) and c.func.id in ('print', 'isinstance', 'hasattr', 'type', 'repr', 'str'):
+                    return False
+                if isinstance(c.func, ast.Attribute) and isinstance(c.func.value, ast.Constant):
+                    return False
+                if isinstance(c.func, ast.Attribute) and isinstance(c.func.value, ast.Name) and c.func.value.id == name:
+                    return True
+                return any(isinstance(a, ast.Name) and a.id == name for a in list(c.args) + [k.value for k in c.keywords])
+            between = [c for c in walk_local(f.node) if isinstance(c, ast.Call) and lo < c.lineno <= rs.lineno
+                       and touches(c)]
+            rep.check(not between, rule, "%s:%d the exception read is raised at once" % (f.module.relpath, rs.lineno), fn,
+                      "between `%s` and `%s`: %s" % (src(binds[0])[:50], src(rs), ", ".join("`%s`" % src(c)[:60] for c in between)),
+                      "if that call raises (a label that is not a string, a job that overrides the helper) its exception "
+                      "bubbles up instead of the job's own: not `the same exception object`")
+    rep.ok(rule, "%d re-raise(s) of a local bound to a member's exception examined" % n)
